@@ -1,5 +1,10 @@
 package respec
 
+import (
+	"strings"
+	"unicode"
+)
+
 // CanAbsorb reports whether syms[p:] is a (possibly complete) prefix of some string matched by n
 // when matching starts at symbol index p. All sub-languages are assumed non-empty.
 func CanAbsorb(n *Node, e Env, syms []Sym, p int, depth int) bool {
@@ -115,4 +120,86 @@ func ViablePrefix(nodes []*Node, envs []Env, text string, bytes bool) int {
 		best = syms[k-1].End
 	}
 	return best
+}
+
+// Constant reports whether the expression matches exactly one string by construction, the way
+// Textmapper decides which rules can be specialised from a (class) rule: literal characters and
+// one-member classes that case folding does not widen, concatenated; no alternation, repetition,
+// escapes, dot or named patterns.
+func Constant(n *Node, env Env) (string, bool) {
+	single := func(r rune) (string, bool) {
+		if env.Fold {
+			members := 0
+			for f := r; ; {
+				if f <= env.maxRune() {
+					members++
+				}
+				f = unicode.SimpleFold(f)
+				if f == r {
+					break
+				}
+			}
+			if members != 1 {
+				return "", false
+			}
+		}
+		if env.Bytes && r > 0xff {
+			return "", false
+		}
+		if env.Bytes {
+			return string([]byte{byte(r)}), true
+		}
+		return string(r), true
+	}
+	switch n.Op {
+	case "lit":
+		if env.Bytes && n.R > 0x7f {
+			// a non-ASCII literal in byte mode stands for its UTF-8 bytes unless written as \xHH
+			if n.Enc == "x" || n.Enc == "o" {
+				return single(n.R)
+			}
+			if env.Fold && unicode.SimpleFold(n.R) != n.R {
+				return "", false
+			}
+			return string(n.R), true
+		}
+		return single(n.R)
+	case "class":
+		c := n.Cls
+		if c == nil || c.Neg || len(c.Minus) > 0 || len(c.Items) != 1 {
+			return "", false
+		}
+		it := c.Items[0]
+		if it.Minus || (it.K != "r" && !(it.K == "rng" && it.Lo == it.Hi)) {
+			return "", false
+		}
+		return single(it.Lo)
+	case "cat":
+		var sb strings.Builder
+		for _, s := range n.Sub {
+			v, ok := Constant(s, env)
+			if !ok {
+				return "", false
+			}
+			sb.WriteString(v)
+		}
+		return sb.String(), true
+	case "grp":
+		e := env
+		switch n.Fold {
+		case 1:
+			e.Fold = true
+		case 2:
+			e.Fold = false
+		}
+		if len(n.Sub) != 1 {
+			return "", false
+		}
+		return Constant(n.Sub[0], e)
+	case "alt":
+		if len(n.Sub) == 1 {
+			return Constant(n.Sub[0], env)
+		}
+	}
+	return "", false
 }
